@@ -195,6 +195,12 @@ def run_native(prop, h, cex, ob_or_none, timeout=120):
     finally:
         shutil.rmtree(work, ignore_errors=True)
     detail = out[-3000:]
+    if ob_or_none is not None and getattr(ob_or_none, "kind", "") == "assert":
+        base0 = ob_or_none.id.split("#")[0]
+        mm = re.search(r"ASSERT-FAILED %s\b" % re.escape(base0), out)
+        if mm and ("AssumeViolated" not in out or mm.start() < out.index("AssumeViolated")):
+            # the assertion failed before any later assumption of the harness was reached
+            return True, detail, cex
     if "AssumeViolated" in out:
         return False, "assumption violated natively\n" + detail, cex
     if "[build failed]" in out or "cannot find package" in out or "build constraints exclude" in out:
